@@ -272,6 +272,8 @@ static void p0_run(uint64_t idx, vh_rng_t * rng) {
 
     v = vh_ctx_new(cmds, 4200, 8, 128); v->log_enabled = 0; v->sigs = &sig; v->nsigs = 1;
     if (active_tab) { v->ctx->units = units_b; vh_count("units.application_table", 1); }
+    /* a client that disconnected in mid-message left complete units and a partial one pending; the application discards them (device clear) */
+    if (idx % 7 == 3) { static const char pend[] = "NOOP;CMD 1,2;NO"; vh_input(v, pend, 1 + vh_below(rng, sizeof pend - 1)); vh_device_clear(v); vh_ctx_clear_capture(v); vh_count("history.pending_input_discarded_by_the_application", 1); }
     ret = vh_input(v, msg.p, msg.len);
     vh_eval(1);
     inv = v->ninv ? &v->inv[0] : NULL;
@@ -490,7 +492,7 @@ static void p4_run(uint64_t idx, vh_rng_t * rng) {
 int main(int argc, char ** argv) {
     static const vh_phase_t phases[] = { { "well-formed lists x signatures", p0_count, p0_run }, { "malformed data", p1_count, p1_run }, { "input return value", p2_count, p2_run }, { "several units per message", p3_count, p3_run }, { "array readers", p4_count, p4_run } };
     vh_decoy_enable(5); vh_require("decoy.messages_run_on_a_second_context");
-    vh_require("items.number_token_of_256_or_more_characters"); vh_require("items.number_token_of_64_to_255_characters"); vh_require("clause.error-109"); vh_require("clause.error-108"); vh_require("clause.error-104"); vh_require("clause.error-138"); vh_require("clause.error-131");
+    vh_require("items.number_token_of_256_or_more_characters"); vh_require("items.number_token_of_64_to_255_characters"); vh_require("clause.error-109"); vh_require("history.pending_input_discarded_by_the_application"); vh_require("clause.error-108"); vh_require("clause.error-104"); vh_require("clause.error-138"); vh_require("clause.error-131");
     vh_require("clause.error-224"); vh_require("clause.error-200"); vh_require("clause.optional_absent_silent"); vh_require("clause.item_delivered_whole");
     vh_require("clause.no_error"); vh_require("clause.malformed_gets_command_error"); vh_require("clause.return_true"); vh_require("clause.return_false");
     vh_require("clause.return_false_on_overrun"); vh_require("ws.after_item"); vh_require("clause.multi_unit_two_or_more_errors");
